@@ -22,6 +22,25 @@ type Points struct {
 	mu    sync.Mutex
 	hits  map[string]*atomic.Int64
 	slept atomic.Int64
+	// on: harness actions run at a point (the harness acting as a concurrent
+	// client of the services at exactly that instant, e.g. a Start that lands
+	// between two reads of a live apply)
+	on map[string]func()
+}
+
+// On registers (fn != nil) or removes the harness action for a point. The action
+// runs on the goroutine that hit the point, before the sleep.
+func (p *Points) On(name string, fn func()) {
+	p.mu.Lock()
+	if p.on == nil {
+		p.on = map[string]func(){}
+	}
+	if fn == nil {
+		delete(p.on, name)
+	} else {
+		p.on[name] = fn
+	}
+	p.mu.Unlock()
 }
 
 // PointNames lists every point the repository defines (kept in sync with the
@@ -36,6 +55,10 @@ var PointNames = []string{
 	"pipeline.updatestatus.before-store",
 	"provisioning.applylive.stopped", "provisioning.applylive.imported",
 }
+
+// ActionPoints are points used for harness actions (Points.On) only; they are not
+// part of PointNames, so the pseudo-random choice of sleep points stays what it was.
+var ActionPoints = []string{"provisioning.applylive.checked"}
 
 // InstallPoints installs the handler process-wide (cases run one at a time in a
 // worker process). maxUs: point name -> upper bound of the sleep in
@@ -55,8 +78,12 @@ func (p *Points) hit(name string) {
 		c = &atomic.Int64{}
 		p.hits[name] = c
 	}
+	fn := p.on[name]
 	p.mu.Unlock()
 	n := c.Add(1)
+	if fn != nil {
+		fn()
+	}
 	max, ok := p.maxUs[name]
 	if !ok {
 		max, ok = p.maxUs["*"]
